@@ -41,9 +41,24 @@ def meta_value(p, hostile):
     return "utf-8\r\nX-Injected: " + pa + "\r\nSet-Cookie: a=b\r\n+ADMIN:\r\n+FAKE: " + pa + "\n+VIEWS:\n text/evil: <1k>"
 
 
+def fname(p):
+    """the payload as part of a file name the server will serve: no "/" and none of the substrings the selector
+    filter refuses by design (C01: "./" ".." "//" ".\\" two backslashes, NUL) -- a name with one of those is left
+    out of listings and answered not-found, which would only make the hostile and the inert site differ in shape"""
+    s_ = p.replace("/", "_").replace("\0", "_")
+    for _ in range(len(s_) + 1):
+        t_ = s_.replace("..", "._").replace(".\\", "._").replace("\\\\", "\\_")
+        if t_ == s_:
+            break
+        s_ = t_
+    if s_.endswith("."):       # the name goes on with ".txt" or "/"
+        s_ = s_[:-1] + "_"
+    return s_
+
+
 def mk_tree(p, mtime=1_700_000_000):
     """A site where every content-derived echo position carries the string p (no '/' in file names)."""
-    fn = p.replace("/", "_")
+    fn = fname(p)
     hostile = p != INERT
 
     def h(a, b):
@@ -123,7 +138,7 @@ def mk_requests(p):
     q = gen.pct(p.encode("utf-8"), safe=b"")
     R = []
     for proto, pre, tls in (("http", b"", False), ("https", b"", True), ("wap", b"/wap", False)):
-        for path in (b"/", b"/umn", b"/maps", b"/mail.mbox", b"/d1-" + gen.pct(p.replace("/", "_").encode(), safe=b"")):
+        for path in (b"/", b"/umn", b"/maps", b"/mail.mbox", b"/d1-" + gen.pct(fname(p).encode("utf-8", "surrogateescape"), safe=b"")):
             R.append((f"{proto}:listing:{path.decode()[:12]}", b"GET " + pre + path + b" HTTP/1.0\r\n\r\n", tls))
         R.append((f"{proto}:404", b"GET " + pre + b"/nonexistent-" + q + b" HTTP/1.0\r\n\r\n", tls))
         R.append((f"{proto}:404-search", b"GET " + pre + b"/nonexistent?searchrequest=" + q + b" HTTP/1.0\r\n\r\n", tls))
@@ -136,7 +151,7 @@ def mk_requests(p):
         R.append((f"{proto}:listing-hdr:/umn", b"GET " + pre + b"/umn HTTP/1.0\r\n" + hostile_headers(p) + b"\r\n", tls))
         R.append((f"{proto}:404-hdr", b"GET " + pre + b"/nonexistent HTTP/1.0\r\n" + hostile_headers(p) + b"\r\n", tls))
         R.append((f"{proto}:text-hdr", b"GET " + pre + b"/text.txt HTTP/1.0\r\n" + hostile_headers(p) + b"\r\n", tls))
-        fq = gen.pct(p.replace("/", "_").encode("utf-8", "surrogateescape"), safe=b"")
+        fq = gen.pct(fname(p).encode("utf-8", "surrogateescape"), safe=b"")
         R.append((f"{proto}:doc-named", b"GET " + pre + b"/f1-" + fq + b".txt HTTP/1.0\r\n\r\n", tls))
         for n in (b"1", b"2", b"3"):
             R.append((f"{proto}:mail-{n.decode()}", b"GET " + pre + b"/mail.mbox%7C/MBOX-MESSAGE/" + n + b" HTTP/1.0\r\n\r\n", tls))
@@ -145,7 +160,7 @@ def mk_requests(p):
             R.append((f"{proto}:html-doc{n.decode()}:head", b"HEAD " + pre + b"/page" + n + b".html HTTP/1.0\r\n\r\n", tls))
         for path in (b"/smap", b"/slinks", b"/self.gophermap"):
             R.append((f"{proto}:search-self:{path.decode()}", b"GET " + pre + path + b"?searchrequest=" + q + b" HTTP/1.0\r\n\r\n", tls))
-        R.append((f"{proto}:head", b"HEAD " + pre + b"/f1-" + gen.pct(p.replace("/", "_").encode(), safe=b"") + b".txt HTTP/1.0\r\n\r\n", tls))
+        R.append((f"{proto}:head", b"HEAD " + pre + b"/f1-" + gen.pct(fname(p).encode("utf-8", "surrogateescape"), safe=b"") + b".txt HTTP/1.0\r\n\r\n", tls))
     # a WAP browser recognised by its headers alone (no /wap prefix)
     R.append(("wap:auto-hdr:/", b"GET / HTTP/1.0\r\n" + hostile_headers(p, wap=True) + b"\r\n", False))
     for path in (b"/smap", b"/slinks", b"/self.gophermap"):
